@@ -187,6 +187,82 @@ def family_jobs(rng, tier):
     return jobs
 
 
+def pz_job(raw, conn, tag, **kw):
+    j = {"H": len(raw), "W": len(raw[0]), "conn": conn, "raw": raw, "vscale": 1, "dtype": "int64", "mask": None,
+         "tr": None, "tden": 1, "regs": True, "idx": -1, "base": [], "maskenum": 0, "steps": 1, "tag": tag}
+    j.update(kw)
+    return j
+
+
+def lookup_target_raster(t, variant, W):
+    """A raster in which provisional region id `t` takes part in a merge as the upper ("U") or the lower ("L")
+    id.  Rows 0..r_t carry a 4-colour pattern without equal neighbours (not even diagonal ones), so every pixel
+    gets a fresh id and id t sits at row (t-1)//W, column (t-1)%W; the row above is one foreign value except for a
+    run of three cells of t's value ending (U) or starting (L) over t, which joins t with the id two columns away.
+    None if the run does not fit."""
+    rt, ct = (t - 1) // W, (t - 1) % W
+    lo, hi = (ct - 2, ct) if variant == "U" else (ct, ct + 2)
+    if lo < 0 or hi >= W:
+        return None
+    g = [[(c % 2) + 2 * (r % 2) for c in range(W)] for r in range(rt + 1)]
+    top = [9] * W
+    for c in range(lo, hi + 1):
+        top[c] = g[rt][ct]
+    return g + [top]
+
+
+def manyregion_jobs(rng, tier):
+    """many provisional regions (64 .. 300): region_lookup has to grow (64 -> 128 -> 256 ...) and ids around the
+    table sizes (63, 64, 127, 128, 255, 256) are merged as upper and as lower ids"""
+    jobs = []
+    # width 64: the ids sit in the last two columns (only "U" fits); width 60 / 50 / 33: both variants fit
+    combos = [(64, "U"), (60, "L")] if tier == "quick" else \
+        [(64, "U"), (60, "U"), (60, "L"), (50, "U"), (50, "L"), (33, "U"), (33, "L")]
+    k = 0
+    for W, variant in combos:
+        for t in (63, 64, 127, 128, 255, 256):
+            g = lookup_target_raster(t, variant, W)
+            if g is None:
+                continue
+            for conn in ((4, 8) if tier == "thorough" else ((4, 8)[k % 2],)):
+                jobs.append(pz_job(g, conn, "lookup_t%d%s_w%d" % (t, variant, W)))
+            k += 1
+    # thin stripes / combs / checkerboards with bridges: 2xN, 3xN, Nx2, Nx3 and noise
+    shapes_hw = [(2, 64), (2, 130), (3, 100), (130, 2), (90, 3), (16, 16)] if tier == "quick" else \
+        [(2, 64), (2, 100), (2, 130), (3, 64), (3, 100), (3, 130), (64, 2), (130, 2), (90, 3), (130, 3),
+         (16, 16), (20, 20), (24, 24), (16, 24)] * 6
+    for (H, W) in shapes_hw:
+        kind = rng.choice(["bridges", "runs", "noise"]) if min(H, W) <= 3 else "noise"
+        if kind == "noise":
+            nv = rng.choice([2, 3])
+            g = [[rng.randrange(nv) for _ in range(W)] for _ in range(H)]
+        else:
+            tall = H > W
+            n, m = (H, W) if tall else (W, H)          # n = long side, m = 2 or 3
+            lines = []
+            for r in range(m):
+                if kind == "bridges" and r < m - 1:
+                    lines.append([(c + r) % 2 for c in range(n)])          # checkerboard: all fresh ids
+                else:
+                    line, v = [], rng.randrange(2)
+                    while len(line) < n:                                    # runs of random length: bridges
+                        line += [v] * rng.randint(1, 5)
+                        v = 1 - v
+                    lines.append(line[:n])
+            g = [list(col) for col in zip(*lines)] if tall else lines
+        jobs.append(pz_job(g, rng.choice([4, 8]), "many_%s_%dx%d" % (kind, H, W)))
+    return jobs
+
+
+def polygonize_variant(j, dtype, layout, valmap, tag):
+    """a C16-style plain job as a polygonize input of the given dtype / memory layout"""
+    kw = {"dtype": dtype, "layout": layout, "valmap": valmap}
+    if dtype == "int64" and (len(tag) + j["H"]) % 3 == 0:       # bool mask (compiled anyway), same layout
+        kw["mask"] = [[0 if (r * 7 + c * 3 + j["W"]) % 5 == 0 else 1 for c in range(j["W"])] for r in range(j["H"])]
+        kw["mdtype"] = "bool"
+    return pz_job(j["vals"], j["n"], tag, **kw)
+
+
 def merge_jobs(rng, tier):
     jobs = []
     M, K = (5, 3) if tier == "quick" else (6, 4)
@@ -213,6 +289,7 @@ def judge_and_handle(ctx, cases, name, kind, parallel):
     skipped = sum(1 for c in cases if c.get("skipped"))
     if skipped:
         ctx.note("%s: %d cases not run after repeated worker timeouts" % (name, skipped))
+    cases = [c for c in cases if c.get("tag") != "filler"]
     good = [c for c in cases if "error" not in c and not c.get("skipped")]
     for c in cases:
         if "error" in c:
@@ -300,9 +377,25 @@ def run(ctx):
     fj = family_jobs(rng, ctx.tier)
     ej_n = len(ej)
     tj = random_jobs(rng, ctx.pick(400, 4000), 8, ctx.pick(16, 120), offset=len(mj) + len(ej) + len(fj))
-    tj = fj + tj
+    tj = fj + tj + manyregion_jobs(rng, ctx.tier)
+    # input-variation matrix: memory layout x dtype on a seeded sample of every family (same polygons expected)
+    nproc = ctx.pick(4, 16)
+    fam = {}
+    for j in (shapes.placement_jobs(rng, [(4, 4), (5, 5)]) + shapes.hook_jobs() + shapes.multiarm_jobs(rng, 300)
+              + shapes.small_random_jobs(rng, 300)):
+        fam.setdefault("_".join(j["tag"].split("_")[:2]), []).append(j)
+    for g in shapes.GENS:
+        fam[g.__name__] = [shapes.plain_job(shapes.sym(g(rng.randint(3, 8), rng.randint(3, 8), rng), rng.randrange(8)),
+                                            rng.choice([4, 8]), g.__name__) for _ in range(6)]
+    groups = {}
+    for key, jobs_ in shapes.variation_groups(rng, [fam[k] for k in sorted(fam)], ctx.pick(3, 40), ctx.pick(3, 20),
+                                              polygonize_variant).items():
+        groups.setdefault(key[0], []).extend(jobs_)              # polygonize specialises on the dtype only
+    vj = shapes.interleave(groups, nproc, len(mj) + len(ej) + len(tj), pz_job([[0]], 4, "filler", steps=0, regs=False))
+    tj += vj
+    ctx.extra["variation_cases"] = sum(len(v) for v in groups.values())
     # quick: 4 processes (every process JIT-compiles each signature it meets: ~4 CPU-s apiece)
-    allcases = core.run_jobs("polygonize_worker", mj + ej + tj, nproc=ctx.pick(4, 16))
+    allcases = core.run_jobs("polygonize_worker", mj + ej + tj, nproc=nproc)
     mcases = allcases[:len(mj)]
     ecases = allcases[len(mj):len(mj) + len(ej)]
     tcases = allcases[len(mj) + len(ej):]
